@@ -90,7 +90,7 @@ def lazy_null_constraints(v, acc, prefer='Null'):
 def check_pinned(eng, pc, pins, extra=()):
     """satisfiability of pc (+extra) with as many of the completion pins as are consistent with it: a lazy part whose tag the path has only partly
     constrained (e.g. tested non-null through its discriminant, never materialised) cannot take the preferred pin; dropping a pin never drops the path"""
-    pc = list(pc) + list(extra)
+    extra = list(extra); pc = list(pc) + extra
     sat, m = eng.check(pc + list(pins))
     if sat or not pins: return sat, m
     keep = []
@@ -98,7 +98,7 @@ def check_pinned(eng, pc, pins, extra=()):
         ok, _ = eng.check(pc + keep + [c])
         if ok: keep.append(c)
     sat, m = eng.check(pc + keep)
-    if not sat: eng.no_model = getattr(eng, 'no_model', 0) + 1          # a completed path without a model: surfaced as inconclusive by Summary.absorb_engine
+    if not sat and not extra: eng.no_model = getattr(eng, 'no_model', 0) + 1          # a completed path without a model: surfaced as inconclusive by Summary.absorb_engine
     return sat, m
 
 def model_tag(lz, model, prefer='Null'):
